@@ -353,8 +353,10 @@ func applyCall(p mq.Packet, tok string) {
 	case reflect.String:
 		v = reflect.ValueOf(string(unhex(arg)))
 	case reflect.Slice:
-		v = reflect.ValueOf(append([]byte{}, unhex(arg)...))
-		if len(unhex(arg)) == 0 {
+		// "-" is nil; "" is an empty but non-nil slice with spare capacity (the two must behave
+		// alike: "set back to empty")
+		v = reflect.ValueOf(append(make([]byte, 0, 4), unhex(arg)...))
+		if arg == "-" {
 			v = reflect.ValueOf([]byte(nil))
 		}
 	case reflect.Int:
